@@ -49,6 +49,15 @@ func (p *Proof) IsValid() bool {
 	if p == nil {
 		return false
 	}
+	// every field is needed below: a proof with a missing field is not valid
+	if p.Commitment == nil ||
+		p.Z1 == nil ||
+		p.Z2 == nil ||
+		p.A == nil ||
+		p.B == nil ||
+		p.C == nil {
+		return false
+	}
 	if p.A.IsIdentity() || p.B.IsIdentity() || p.C.IsIdentity() {
 		return false
 	}
